@@ -267,8 +267,8 @@ MANIFEST = {
             "c03_partial : C03_for C01.tr — PROVED for the model translator of C01 (stage S1, all queries, all kind maps): its statements pass the binder, hence resolve, under the schema with "
             "no parameters. c03_partial_S2 : forall flipOf prune, C03_for (C01.tr2F flipOf prune) and tr_wellScoped — the same for S1 plus stage S2b (MATCH (a)-[r]->(b) [WHERE single-variable conjuncts] RETURN items "
             "over a, r, b; both join orders, the frame pruned to the read bindings or complete, every combination of kind constraints, every list of conjuncts: Proofs/C03Frag.lean bPredAt — a lowered S1 predicate binds wherever its alias "
-            "shows id / properties / kind column); c03_partial_S3 : forall flipOf flipCh prune, C03_for (C01.tr3F flipOf flipCh prune) adds stage S2c, chains of two or three hops (frames s0, s1[, s2] "
-            "with the carried columns and the `!=` guards, final projection over the last frame: ChainB.tr_wellScopedCh); c03_partial_S4 : forall flipOf flipCh fast prune, C03_for (C01.tr4F flipOf flipCh fast prune) adds stage S1c, the two "
+            "shows id / properties / kind column); c03_partial_S3 : forall flipOf flipCh prune, C03_for (C01.tr3F flipOf flipCh prune) adds stage S2c, chains of two or three hops with an optional WHERE of single-variable conjuncts (frames s0, s1[, s2] "
+            "with the carried columns, the lowered conjuncts over the new relationship / node (ChainB.bStep1 / bStep2: they bind because the frame's FROM shows the columns of e_i and n_(i+1)) and the `!=` guards, final projection over the last frame: ChainB.tr_wellScopedCh); c03_partial_S4 : forall flipOf flipCh fast prune, C03_for (C01.tr4F flipOf flipCh fast prune) adds stage S1c, the two "
             "count statements (fast path / node frame, with or without alias: CountB.tr_wellScopedCount); c03_partial_S5 adds stage S2n, count(x) over a hop frame "
             "(CountHopB.tr_wellScopedCountHop); c03_partial_S6 : forall flipOf flipCh flipN fast prune push, C03_for (C01.tr6F ...) adds stage S2L, the hop statement with a LIMIT literal on the statement and — limit pushdown — "
             "on the frame s0 (Hop.tr_wellScoped2L: a LIMIT literal binds in every scope): the statement passes the binder (wellScoped = true) under the schema with the empty parameter list. C03_full (the same for a total translator) is a visible, undischarged Prop.",
